@@ -12,7 +12,7 @@ from sim.core import Outcome, dg, exc_site
 
 META = {
     "level": "exploration",
-    "budget": {"quick": {"seconds": 75, "runs": 700},
+    "budget": {"quick": {"seconds": 75, "runs": 450},
                "thorough": {"seconds": 1200, "runs": 10**9}},
     "rule": ("one evaluation = one sequence (ints with duplicates, 1-6 partitions incl. empty ones) x a pipeline of "
              "0-3 transforms {map, filter, remove, map_partitions, pluck, starmap, flatten, repartition, zip, "
@@ -23,9 +23,9 @@ META = {
              "with plain Python and with a second scheduler; distinct = distinct (pipeline, event digest); "
              "non-trivial = >=2 non-empty partitions and >=2 jobs open at once"),
     "abstract_measure": "distinct (terminal op, entry point) pairs",
-    "gates": {"quick": {"groupby_disk": 400, "groupby_tasks": 400, "mp_boundary": 2500, "empty_partition": 2500,
-                        "multi_open": 5000},
-              "thorough": {"groupby_disk": 400}},
+    "gates": {"quick": {"groupby_disk": 100, "groupby_tasks": 100, "mp_boundary": 1000, "empty_partition": 1000,
+                        "multi_open": 2000},
+              "thorough": {"groupby_disk": 100}},
     "anchors": ["dask/bag/core.py", "dask/bag/chunk.py"],
     "real": ["dask.bag.core (all listed operations, groupby_disk / groupby_tasks, reductions)",
              "partd (File/Python/Snappy-less) on real files in a per-run scratch directory",
@@ -36,7 +36,8 @@ META = {
 }
 
 TRANSFORMS = ("map", "filter", "remove", "map_partitions", "pair_pluck", "starmap", "flatten", "repartition",
-              "zip", "concat", "accumulate", "concat", "repartition", "map", "zip_self", "map_self")
+              "zip", "concat", "accumulate", "concat", "repartition", "map", "zip_self", "map_self",
+              "concat_other", "concat_plain", "concat_plain")
 TERMINALS = ("identity", "distinct", "frequencies", "topk", "fold", "reduction", "foldby", "groupby_disk",
              "groupby_tasks", "join", "product", "take", "sum", "max", "min", "mean", "var", "std", "count",
              "any", "all", "product", "join", "foldby", "product_self", "join_self")
@@ -132,6 +133,20 @@ def run_one(tape, cfg):
                 ref_parts = [[x + x for x in p] for p in ref_parts] if ref_parts is not None else None
             elif st == "zip":
                 b = db.zip(b, b.map(bf.mul2)).map(bf.first)
+            elif st == "concat_other":
+                # concat with an independent bag: the (lazy) partitions of b.map(...) get exactly one
+                # dependent, the alias inside concat (stacked when the step repeats)
+                ob2 = db.from_sequence(other, npartitions=min(2, len(other)))
+                b = db.concat([b.map(bf.add1), ob2])
+                ref = [x + 1 for x in ref] + list(other)
+                ref_parts = None
+            elif st == "concat_plain":
+                # plain concat: every output partition is an alias of an input partition (aliases
+                # stack when concat steps follow each other)
+                ob2 = db.from_sequence(other, npartitions=min(2, len(other)))
+                b = db.concat([b, ob2])
+                ref = ref + list(other)
+                ref_parts = None
             elif st == "concat":
                 b = db.concat([b, b.map(bf.add1)])
                 ref = ref + [x + 1 for x in ref]
